@@ -126,6 +126,9 @@ func (ms *measureService) Write(measure measurev1.MeasureService_WriteServer) er
 		if writeRequest.GetMetadata() != nil {
 			metadata = writeRequest.GetMetadata()
 			nodeMetadataSent = make(map[string]bool)
+			// The spec locators were built from the previous resource's entity and
+			// sharding-key tag names; they must not route the new resource's writes.
+			specEntityLocator, specShardingKeyLocator = nil, nil
 		} else if isFirstRequest {
 			ms.l.Error().Msg("metadata is required for the first request of gRPC stream")
 			ms.sendReply(nil, modelv1.Status_STATUS_METADATA_REQUIRED, writeRequest.GetMessageId(), measure)
